@@ -423,6 +423,8 @@ arena_realloc_fast(struct arena_scope *s, char *ptr, size_t old_size,
 		return 1;
 	}
 
+	arena_scope_validate(a, s, new_size);
+
 	/* Check if this is the last allocated object. */
 	old_addr.s8 = ptr;
 	old_addr.u64 += old_size;
